@@ -174,6 +174,11 @@ example : holds (fun _ => 90000) []
     [.ok 0 9 1, .tick 30000, .dead 0 9 1, .tick 30000, .dead 0 9 1, .tick 30000, .dead 0 9 1, .ok 1 9 1] [(9, 1)] = false := by
   decide
 
+/-- A heartbeat that outlives its allocator's `Release` (renewal by a caller that holds nothing) is
+rejected: it would keep a released id taken for ever. -/
+example : holds (fun _ => 90000) [] [.ok 0 9 1, .relo 0 9 1, .rnw 0 9 1] [(9, 1)] = false := by decide
+example : holds (fun _ => 90000) [] [.ok 0 9 1, .rnw 0 9 1, .relo 0 9 1] [] = true := by decide
+
 /-! ## Release clause: a hand-out is released by its holder at most once -/
 
 /-- **Release-own at most once, read off the predicate.** In every prefix `p` of a history accepted by
@@ -278,6 +283,18 @@ example :
         [.step 0, .tick 30000, .step 0, .tick 30000, .step 0, .tick 30000, .step 0, .step 1, .step 1]).trace
       = [.ok 0 9 1, .tick 30000, .rnw 0 9 1, .tick 30000, .rnw 0 9 1, .tick 30000, .rnw 0 9 1, .ok 1 9 2] := by
   decide
+
+/-- **Marker lifetime shorter than the entity's (known finding `marker-ttl-shorter-than-entity`).**
+Read literally — an id is live until it is released — the property is not met: the marker of a
+client / user / mapping / node id lives `DefaultIDTTL` (30 days) and is never refreshed, the entity
+lives on, and after 30 days the generator hands the same id out again.  `holds` with a reference
+live-set that never expires (`ttl = 0`) rejects the model's own history. -/
+theorem C15_marker_ttl_reissue_witness :
+    holds (fun _ => 0) []
+      (run ⟨true, fun _ => 2592000000, fun _ => 100, true, true⟩
+        (init [] [(0, [.gen 0 (fun _ => 10000001)]), (1, [.gen 0 (fun _ => 10000001)])])
+        [.step 0, .tick 2592000000, .step 1]).trace
+      [(0, 10000001)] = false := by decide
 
 /-! ## Candidates and constants -/
 
